@@ -43,6 +43,17 @@ void drv_c16_bin(int tier, unsigned long seed, const char *extra) {
         if (kk <= 35) { callf("drv_rndz", 1, 1 + (int)rnd_below(3), 0, (int)(rnd64() & 1)); shrinkz(0); callf("mpz_bin_ui", 0, 1, kk); callf("mpz_set", 0, 1); callf("mpz_bin_ui", 0, 0, kk); } }
       for (j = 0; j < 3; j++) callf("mpz_clear", j); rec_quiesce();
     } }
+  /* bin_ui with n next to a power of the limb base (low limb smaller / larger than k, n - k crossing the limb boundary), both signs */
+  { int jl, ci, sgn, ki; static const int cs[] = {0, 1, 2, 5, 30, 31};
+    for (jl = 1; jl <= 2; jl++) { x++; if (!MINE(sh, x)) continue;
+      rec_reset("c16_bin", x, seed); for (j = 0; j < 3; j++) callf("mpz_init", j);
+      for (ci = 0; ci < 6; ci++) for (sgn = 0; sgn < 4; sgn++) { int c = cs[ci]; uint64_t kl[9]; int nk = 0;
+        kl[nk++] = 0; kl[nk++] = 1; kl[nk++] = 2; if (c > 1) kl[nk++] = c - 1; kl[nk++] = c; kl[nk++] = c + 1; kl[nk++] = 7; kl[nk++] = 20; kl[nk++] = 33;
+        callf("mpz_set_ui", 1, (uint64_t)1); callf("mpz_mul_2exp", 1, 1, (uint64_t)(64 * jl));
+        if (sgn & 1) callf("mpz_sub_ui", 1, 1, (uint64_t)c); else callf("mpz_add_ui", 1, 1, (uint64_t)c);        /* B^j - c or B^j + c */
+        if (sgn & 2) callf("mpz_neg", 1, 1);
+        for (ki = 0; ki < nk; ki++) { shrinkz(0); callf("mpz_bin_ui", 0, 1, kl[ki]); if (ki % 3 == 0) { callf("mpz_set", 0, 1); callf("mpz_bin_ui", 0, 0, kl[ki]); } } }
+      for (j = 0; j < 3; j++) callf("mpz_clear", j); rec_quiesce(); } }
   /* the prime-sieve (Goetgheluck) region k > 1000, k > n/16: runs of consecutive n (every residue, n = 2p, n prime, n = p^2 ...) */
   { static const uint64_t gk[] = {1001, 1013, 1500, 2500}; int gi, seg;
     for (gi = 0; gi < 4; gi++) for (seg = 0; seg < 3; seg++) {
